@@ -30,6 +30,10 @@ MXSS = ["<svg>", "</svg>", "<math>", "</math>", "<foreignObject>", "<desc>", "<t
         "<b>", "</b>", "<i>", "</i>", "<nobr>", "<a>", "</a>", "<em>", "<caption>", "<col>", "<optgroup>", "<rt>", "<li>", "<dd>",
         "</br>", "</div>", "</td>", "</tr>", "</select>", "</body>", "</html>", "</h1>", "</li>", "</title>", "<g>", "</g>", "</desc>",
         "</foreignObject>", "</mi>", "</annotation-xml>", "<html>", "<tbody>", "<colgroup>"] + \
+       ["<a href=\"javascript&amp;colon;alert(1)\">", "<a href=\"java&amp;Tab;script:alert(1)\">", "<p title='AT&amp;amp;T'>",
+        "<b class=&amp;copy>", "<a href=&amp;#106;avascript:x>", "<a href=\"h://]\" ping=\"javascript:alert(1)\">",
+        "<a ping=\"h://]\" href=\"javascript:alert(1)\">", "<img src=\"//[::1\" longdesc=\"javascript:x\">",
+        "<a href=\"http://[x\" xlink:href=\"javascript:y\">", "<form action=\"//]\"><button formaction=\"javascript:z\">"] + \
        ["<a title=\"</%s><img src=x onerror=alert(1)>\">" % r for r in
         ("title", "style", "textarea", "xmp", "iframe", "noscript", "noembed", "noframes", "script", "plaintext")]
 RAWLIKE = ["title", "style", "textarea", "xmp", "iframe", "noscript", "noembed", "noframes", "script", "listing", "plaintext"]
